@@ -1270,14 +1270,27 @@ class Lo(Expr):
         return relocate_lo(value)
 
 
+# an offset (also one to a constant, i.e. absolute, address) changes whenever the item itself moves
+def depends_on_position(expr):
+    if isinstance(expr, Offset):
+        return True
+    if isinstance(expr, (Hi, Lo)):
+        return depends_on_position(expr.expr)
+    return False
+
+
 # an expression "depends on labels" if it can't be evaluated from the constants alone
 # the value of such an expression isn't final until all labels have settled
-def depends_on_labels(expr, position, constants, line):
+def refers_to_labels(expr, position, constants, line):
     try:
         expr.eval(position, constants, line)
     except AssemblerError:
         return True
     return False
+
+
+def depends_on_labels(expr, position, constants, line):
+    return refers_to_labels(expr, position, constants, line) or depends_on_position(expr)
 
 
 # base class for assembly "things"
@@ -2918,11 +2931,13 @@ def transform_compressible(items, constants, labels):
         # only pc-relative jumps / branches are safe (their offsets can only shrink)
         imm = getattr(item, 'imm', None)
         unsettled = isinstance(imm, Expr) and depends_on_labels(imm, position, constants, item.line)
+        # (an offset to a constant address grows instead when earlier items shrink: never safe)
+        absolute = unsettled and not refers_to_labels(imm, position, constants, item.line)
 
         # check if any set of criteria is all true for this item
         compressed = None
         for name, preds in criteria.items():
-            if unsettled and name not in ['c.jal', 'c.j', 'c.beqz', 'c.bnez']:
+            if unsettled and (absolute or name not in ['c.jal', 'c.j', 'c.beqz', 'c.bnez']):
                 continue
             try:
                 if all(pred(item, position, env) for pred in preds):
